@@ -170,6 +170,9 @@ class CFiringScript:
         
         graph = CFGraph.from_dict(graph_data)
         script_dict = data.get("script", {}) # Script can be empty, defaults to {} in constructor
+        # A damaged file can hold a float (e.g. 1e5 or 1.5) where a number of firings is expected
+        if any(not isinstance(firings, int) for firings in script_dict.values()):
+            raise ValueError("Firing counts must be integers")
         
         return cls(graph, script_dict)
 
